@@ -64,6 +64,94 @@ def cover_behaviours(rng, first_id, cfg):
     return out, covered, total, g
 
 
+def _segof(segs, x):
+    k = 0
+    for i, sg in enumerate(segs):
+        if sg['base'] <= x:
+            k = i
+    return k
+
+
+def sim_features(beh):
+    """abstract situations a simulated behaviour goes through, computed from TLC's states (what kind of reader
+    meets what kind of step in what kind of layout); used to pick the behaviours that are replayed"""
+    S = lambda st, v: core.tlaval.state_var(st['body'], v)
+    f, info, prev = set(), {}, None
+    for i in range(1, len(beh)):
+        st, pre = beh[i], beh[i - 1]
+        a = st['last']
+        act = a['a']
+        log0 = [r['off'] for r in S(pre, 'log')]
+        segs0, rd0, hw0 = S(pre, 'segs'), S(pre, 'rd'), S(pre, 'hw')
+        rd1, obs = S(st, 'rd'), S(st, 'obs')
+        oldest, newest = (log0[0], log0[-1]) if log0 else (-1, -1)
+        gap = bool(log0) and log0[0] > 0
+        nseg = min(len(segs0), 3)
+        alive = sorted(info[r]['c'] for r in info if rd0[r]['alive'])
+        f.add(('a', act))
+        if prev:
+            f.add(('aa', prev, act))
+        if act == 'NewReader':
+            s_, c = a['s'], a['c']
+            rel = ('empty' if not log0 else 'below' if s_ < oldest else 'end' if s_ == newest + 1 else
+                   'beyond' if s_ > newest + 1 else 'abovehw' if c and s_ > hw0 else 'in')
+            f.add(('nr', c, rel, nseg))
+            info[a['r']] = {'below': rel == 'below', 'deliv': False, 'surv': False, 'c': c}
+        elif act in ('Drain', 'Tail', 'Read'):
+            inf = info.get(a['r'])
+            if inf and rd0[a['r']]['alive']:
+                got = len(obs['ret']) > 0
+                f.add(('dr', act, inf['c'], inf['below'], inf['surv'], inf['deliv'], got))
+                inf['deliv'] = inf['deliv'] or got
+        elif act == 'Truncate':
+            o = a['o']
+            relo = 'none' if not log0 else 'le-oldest' if o <= oldest else 'past' if o > newest else 'mid'
+            f.add(('tr', relo, gap, nseg))
+            for r, inf in info.items():
+                if rd0[r]['alive']:
+                    if rd1[r]['alive']:
+                        same = _segof(segs0, rd0[r]['next']) == _segof(segs0, o)
+                        f.add(('tr-surv', inf['c'], inf['below'], inf['deliv'], same))
+                        inf['surv'] = True
+                    else:
+                        f.add(('tr-kill', inf['c']))
+        elif act == 'Reopen':
+            f.add(('ro', gap, nseg, bool(log0)))
+            info = {}
+        elif act in ('Append', 'AppendSet'):
+            rolled = len(S(st, 'segs')) > len(segs0)
+            f.add(('ap', act, len(a['recs']), rolled, tuple(alive), obs['err']))
+            if act == 'AppendSet' and a['recs'][0]['off'] > newest + 1:
+                f.add(('ap-gap', len(a['recs'])))
+        elif act == 'SetHW':
+            f.add(('hw', tuple(alive), _segof(segs0, a['h']) == len(segs0) - 1))
+        prev = act
+    return f
+
+
+def select(pool, n, rng, k=3):
+    """greedy: repeatedly take the behaviour that adds the most situations covered fewer than k times so far,
+    then fill up at random"""
+    cand = [(b, sim_features(b)) for b in pool if len(b) > 1]
+    count, chosen = {}, []
+    while cand and len(chosen) < n:
+        best, gain = None, 0
+        for i, (b, f) in enumerate(cand):
+            g = sum(1 for x in f if count.get(x, 0) < k)
+            if g > gain:
+                best, gain = i, g
+        if best is None:
+            break
+        b, f = cand.pop(best)
+        for x in f:
+            count[x] = count.get(x, 0) + 1
+        chosen.append(b)
+    guided = len(chosen)
+    rng.shuffle(cand)
+    chosen += [b for b, _ in cand[:max(0, n - len(chosen))]]
+    return chosen, len(count), guided
+
+
 def features(beh):
     f = set()
     for s in beh['steps']:
@@ -135,8 +223,16 @@ def run(rep, tier, seed, replay):
     # 2. behaviours from the specification
     num = 700 if tier == "quick" else 20000
     depth = 12 if tier == 'quick' else 16
-    sims = core.tlc_simulate('MC_CommitLog.tla', 'Sim_CommitLog.cfg' if tier == 'quick' else 'Sim_CommitLog_thorough.cfg',
-                             num, depth, seed)
+    # a pool several times larger is simulated (cheap); the behaviours replayed are picked by the abstract
+    # situations they cover (sim_features), the rest at random
+    pool = core.tlc_simulate('MC_CommitLog.tla', 'Sim_CommitLog.cfg' if tier == 'quick' else 'Sim_CommitLog_thorough.cfg',
+                             num * (6 if tier == 'quick' else 2), depth, seed, timeout=3000)
+    # + the scenario family "a reader lives through changes of the log" (MC_CommitLogFam.tla)
+    pool += core.tlc_simulate('MC_CommitLogFam.tla', 'Sim_CommitLogFam.cfg' if tier == 'quick' else 'Sim_CommitLogFam_thorough.cfg',
+                              num * (3 if tier == 'quick' else 1), max(depth, 14), seed + 7, timeout=3000)
+    sims, nfeat, guided = select(pool, num, rng)
+    rep.cov['selection'] = {'pool': len(pool), 'selected': len(sims), 'picked_for_coverage': guided,
+                            'situations_covered': nfeat}
     behaviours = [decorate(b, rng, i + 1) for i, b in enumerate(sims) if len(b) > 1]
     if True:
         ccfg = 'MC_CommitLog_cover.cfg' if tier == 'quick' else 'MC_CommitLog_cover_thorough.cfg'
@@ -146,11 +242,16 @@ def run(rep, tier, seed, replay):
                                        'transitions': total, 'transitions_replayed': covered, 'behaviours': len(cov)}
         rep.cov['exhaustive'] = covered == total
     # 3. execute on the real code, 4. judge with TLC
-    with core.scratch('c01') as d:
-        trace = execute(behaviours, d)
-        tr = judge(rep, behaviours, trace)
+    # in chunks: one harness process and one TLC trace validation per 12 000 behaviours
+    lines = 0
+    for i in range(0, len(behaviours), 12000):
+        chunk = behaviours[i:i + 12000]
+        with core.scratch('c01') as d:
+            trace = execute(chunk, d, timeout=2400)
+            tr = judge(rep, chunk, trace)
+        lines += tr['validated']
     rep.cov['traces_validated_against_impl'] = len(behaviours)
-    rep.cov['trace_lines_validated'] = tr['validated']
+    rep.cov['trace_lines_validated'] = lines
     rep.cov['evaluations'] = len(behaviours)
     rep.cov['distinct_nontrivial'] = len({core.sha(b['steps']) for b in behaviours if nontrivial(b)})
     rep.cov['rule'] = ('behaviours = every transition of the small cover model (spanning tree + one path per edge) + TLC '
